@@ -3,8 +3,10 @@ import json
 import os
 import random
 import re
+import resource
 import shutil
 import subprocess
+import tempfile
 
 import core
 
@@ -126,6 +128,10 @@ def gen_db(rnd, kind):
         return rnd.choice([b"command: ls\ndescription: not a list\n", b"- 1\n- 2\n", b"just a scalar\n"]), []
     n = rnd.choice([1, 2, 3, 5, 8, 12, 20, 30])
     es = [gen_entry(rnd, kind == "hostile") for _ in range(n)]
+    if kind == "hostile" and rnd.random() < 0.3:  # degenerate entries
+        es.insert(rnd.randrange(len(es) + 1), rnd.choice([dict(command="", description="", keywords=[], pipeline=False),
+                                                           dict(command="", description="only a description " + rnd.choice(WORDS), keywords=[], pipeline=False),
+                                                           dict(command=rnd.choice(TOOLS), description="", keywords=[rnd.choice(WORDS)], pipeline=True)]))
     # duplicates of whole entries (score ties) and near-duplicates
     for _ in range(rnd.randint(0, 3)):
         es.insert(rnd.randrange(len(es) + 1), dict(rnd.choice(es)))
@@ -199,7 +205,7 @@ def gen_query(rnd, entries):
     w = rnd.sample(ws, min(len(ws), 2))
     return c, rnd.choice([
         ["  " + w[0] + "   " + w[-1] + " "], [w[0], w[-1]], [w[0].upper()], ["\t" + w[0] + "\n"], [w[0] + "\x07\x1b" + w[-1]], [w[0] + " 日本語"],
-        ["--", "-" + w[0]], [w[0] + "," + w[-1] + "."], ["x" * 1000], [w[0], "", w[-1]], ["'" + w[0] + "' \"" + w[-1] + "\""], [w[0] + " %s %d"]])
+        ["--", "-" + w[0]], [w[0] + "," + w[-1] + "."], [w[0] + " \udcff\udcfe"], ["\udce9" + w[0]], ["x" * 1000], [w[0], "", w[-1]], ["'" + w[0] + "' \"" + w[-1] + "\""], [w[0] + " %s %d"]])
 
 
 def gen_flags(rnd):
@@ -289,7 +295,8 @@ def load_history(data):
         for e in es:
             if not isinstance(e, dict) or not isinstance(e.get("query", ""), str) or not isinstance(e.get("results_count", 0), int):
                 return [], 100
-            out.append((e.get("query", "").encode(), e.get("results_count", 0)))
+            # encoding/json turns an escaped lone surrogate into U+FFFD
+            out.append((re.sub("[\ud800-\udfff]", "\ufffd", e.get("query", "")).encode(), e.get("results_count", 0)))
         m = d.get("max_size", 0)
         if not isinstance(m, int) or isinstance(m, bool):
             return [], 100
@@ -438,13 +445,28 @@ class SearchRun:
     pass
 
 
+def _child_limits():
+    # a command that loops while printing must not fill the disk or our memory: output goes to files capped at 32 MB
+    resource.setrlimit(resource.RLIMIT_FSIZE, (32 << 20, 32 << 20))
+    resource.setrlimit(resource.RLIMIT_CORE, (0, 0))
+
+
 def run_binary(wtf, argv, env, cwd, stdin=None, timeout=20):
-    try:
-        p = subprocess.run([wtf] + argv, env=env, cwd=cwd, input=stdin, stdin=(subprocess.DEVNULL if stdin is None else None),
-                           stdout=subprocess.PIPE, stderr=subprocess.PIPE, timeout=timeout)
-        return p.returncode, p.stdout, p.stderr, False
-    except subprocess.TimeoutExpired as e:
-        return -9, e.stdout or b"", e.stderr or b"", True
+    """runs the built binary; returns (exit status, stdout, stderr, timed out).  Scratch files live next to the binary (ctx.rundir)."""
+    tmp = os.path.dirname(wtf)
+    with tempfile.TemporaryFile(dir=tmp) as fo, tempfile.TemporaryFile(dir=tmp) as fe:
+        p = subprocess.Popen([wtf] + argv, env=env, cwd=cwd, stdin=(subprocess.PIPE if stdin is not None else subprocess.DEVNULL),
+                             stdout=fo, stderr=fe, preexec_fn=_child_limits)
+        timed_out = False
+        try:
+            p.communicate(stdin, timeout=timeout)
+        except subprocess.TimeoutExpired:
+            p.kill()
+            p.communicate()
+            timed_out = True
+        fo.seek(0)
+        fe.seek(0)
+        return (-9 if timed_out else p.returncode), fo.read(16 << 20), fe.read(16 << 20), timed_out
 
 
 def base_env(home):
@@ -511,7 +533,8 @@ def search_stream(ctx, wtf, n_sessions, opts_fact, colors):
             prev_args = (qclass, qargs)
             parts, fl, envx = gen_flags(rnd)
             joined = " ".join(qargs)
-            hk, hdata = gen_history(rnd, " ".join(joined.split()))
+            # (what validation will make of the words: invalid bytes become U+FFFD, white space is collapsed)
+            hk, hdata = gen_history(rnd, " ".join(joined.encode("utf-8", "surrogateescape").decode("utf-8", "replace").split()))
             if hk == "absent":
                 if os.path.exists(hpath):
                     os.remove(hpath)
@@ -882,8 +905,10 @@ def subcommand_stream(ctx, wtf, n):
         raise AssertionError(cmd)
 
     cmds = ["save", "save-pipeline", "pipeline", "search", "history", "alias", "setup", "wizard", "help"]
-    bad = 0
+    bad = hung = 0
     for i in range(n):
+        if hung >= 4:  # a hanging command: the point is made, do not wait for every other instance
+            break
         cmd = cmds[i % len(cmds)]
         d = os.path.join(root, "r%d" % (i % 40))  # homes are reused so that notebooks / histories / aliases accumulate
         home, cwd = os.path.join(d, "a", "b", "home"), os.path.join(d, "cwd")
@@ -906,7 +931,16 @@ def subcommand_stream(ctx, wtf, n):
         env = base_env(home)
         if rnd.random() < 0.3:
             env["NO_COLOR"] = "1"
-        rc, out, err, timed_out = run_binary(wtf, argv_b, env, cwd, stdin=stdin, timeout=30)
+        r = rnd.random()
+        if r < 0.04:      # no HOME at all: every path becomes relative to the (scratch) working directory
+            env.pop("HOME"); env.pop("XDG_CONFIG_HOME")
+        elif r < 0.08:    # a relative XDG_CONFIG_HOME is refused by os.UserConfigDir: the history falls back to $HOME/.wtf
+            env["XDG_CONFIG_HOME"] = "relative/config"
+        elif r < 0.10:    # configuration directory is a file
+            env["XDG_CONFIG_HOME"] = os.path.join(home, ".bashrc")
+            open(os.path.join(home, ".bashrc"), "a").write("# rc\n")
+        rc, out, err, timed_out = run_binary(wtf, argv_b, env, cwd, stdin=stdin, timeout=10)
+        hung += timed_out
         ctx.cov["evaluations"] += 1
         dist["sub." + cmd] = dist.get("sub." + cmd, 0) + 1
         dist["sub.exit-%s" % rc] = dist.get("sub.exit-%s" % rc, 0) + 1
